@@ -251,11 +251,19 @@ fn parent_main(args: &Args) {
                     if let Some(last) = open_call {
                         let v = serde_json::from_str::<Value>(&last).unwrap_or(Value::Null);
                         let entry = v["entry"].as_str().unwrap_or("<unknown>").to_string();
+                        // only a call that has been open for more than a minute counts as hung (no
+                        // library call of this workload takes a second); a worker that was merely
+                        // still busy when the deadline passed is not an observation
+                        let now_ms = std::time::SystemTime::now().duration_since(std::time::UNIX_EPOCH).map(|d| d.as_millis() as u64).unwrap_or(0);
+                        let open_for_ms = now_ms.saturating_sub(v["t_ms"].as_u64().unwrap_or(now_ms));
+                        if open_for_ms < 60_000 {
+                            continue;
+                        }
                         hung_calls += 1;
                         merged.violations.push(Violation {
                             signature: format!("hang/{entry}"),
                             group: 0,
-                            detail: json!({"what":"the call was entered and had not returned when the watchdog fired","watchdog_s":watchdog.as_secs(),"worker":r.k,"bin":r.bin,"last_call":v}),
+                            detail: json!({"what":"the call was entered and had not returned when the watchdog fired","open_for_s":open_for_ms / 1000,"watchdog_s":watchdog.as_secs(),"worker":r.k,"bin":r.bin,"last_call":v}),
                         });
                     }
                 }
